@@ -29,12 +29,11 @@ NoHistView == <<Lo, Lc, Lpts, Io, Ic, Ipts, pc, left, saved, last>>
 DepthView == <<NoHistView, Len(hist)>>
 EmitState == (Len(hist) <= MaxLen) => PrintT(ToJson(hist))
 
-\* one shortest history per distinct state of the transcription in which a requirement invariant is false
-Violated == {n \in {"ReturnedIsFresh", "ImplTracksLogical", "SaveLoadPreservesObservables", "CacheCoherent", "HamDegreeCoherent"} :
+\* one shortest history per distinct state of the transcription in which an (observable) requirement invariant
+\* is false: TLC's own counterexamples, to be confirmed on the real code
+Violated == {n \in {"ReturnedIsFresh", "ImplTracksLogical", "SaveLoadPreservesObservables"} :
                CASE n = "ReturnedIsFresh" -> ~ReturnedIsFresh
                  [] n = "ImplTracksLogical" -> ~ImplTracksLogical
-                 [] n = "SaveLoadPreservesObservables" -> ~SaveLoadPreservesObservables
-                 [] n = "CacheCoherent" -> ~CacheCoherent
-                 [] n = "HamDegreeCoherent" -> ~HamDegreeCoherent}
+                 [] n = "SaveLoadPreservesObservables" -> ~SaveLoadPreservesObservables}
 EmitViolating == (Violated = {} \/ Len(hist) > MaxLen) \/ PrintT(ToJson([violated |-> Violated, hist |-> hist]))
 =============================================================================
